@@ -41,9 +41,13 @@ def gen_case(rng, index, tier):
     top = L.vol_path(tv, '.Trash')
     realtop = top
     if state == 'sticky':
-        L.add({'p': top, 't': 'd', 'm': 0o1777})
+        L.add({'p': top, 't': 'd', 'm': rng.choice([0o1777, 0o1777, 0o1777, 0o1770,
+                                                    0o3777, 0o1700, 0o7777])})
     elif state == 'nonsticky':
-        L.add({'p': top, 't': 'd', 'm': rng.choice([0o777, 0o755, 0o700])})
+        # the sticky bit itself decides, whatever other special bits are set
+        L.add({'p': top, 't': 'd', 'm': rng.choice([0o777, 0o755, 0o700, 0o2777,
+                                                    0o2775, 0o4755, 0o6777,
+                                                    0o0777, 0o2770])})
     elif state in ('link_sticky', 'link_nonsticky'):
         realtop = L.vol_path(tv, 'shared')
         L.add({'p': realtop, 't': 'd',
